@@ -51,6 +51,17 @@ def map_wrappers(cls, M, A):
     obs.append(dict(base, id='%s: %s(Stress) through the abstract interface' % (ident, inv_name), kind='same', w=iv, ref=i_))
     rt = W('rt', np_ + 6, 6, [t_in, 'phqv::put(out, model.%s(model.Stress(t)));' % inv_name])
     obs.append(dict(base, id='%s: %s(Stress(%s))' % (ident, inv_name, fwd_arg), kind='roundtrip', w=rt))
+    # copies: a copy-constructed model, and a model first built from other parameters and then assigned to, are the same
+    # model (a cached coefficient that the copy operations forget to carry over shows here)
+    opars = ['m1', 'm0'] if np_ == 2 else ['(m0 + m0)']
+    oargs = ', '.join('phqv::get<PhQ::%s<%s>>(&o%d)' % (q, CT[M], j) for j, q in enumerate(pars[:np_]))
+    odecl = ['const %s o%d = %s;' % (CT[M], j, v) for j, v in enumerate(opars)]
+    cp = W('copy', np_ + 6, 6, [t_in, 'const %s%s<%s> copy(model);' % (NS, cls, CT[M]), 'phqv::put(out, copy.Stress(t));'])
+    obs.append(dict(base, id='%s: Stress(%s) of a copy-constructed model' % (ident, fwd_arg), kind='same', w=cp, ref=f))
+    asg = W('assign', np_ + 6, 6, [s_in] + odecl + ['%s%s<%s> other(%s);' % (NS, cls, CT[M], oargs), 'other = model;', 'phqv::put(out, other.%s(s));' % inv_name])
+    obs.append(dict(base, id='%s: %s(Stress) of a model assigned over one built from other parameters' % (ident, inv_name), kind='same', w=asg, ref=i_))
+    asf = W('assignf', np_ + 6, 6, [t_in] + odecl + ['%s%s<%s> other(%s);' % (NS, cls, CT[M], oargs), 'other = model;', 'phqv::put(out, other.Stress(t));'])
+    obs.append(dict(base, id='%s: Stress(%s) of a model assigned over one built from other parameters' % (ident, fwd_arg), kind='same', w=asf, ref=f))
     # the argument the model does not depend on
     o_in = 'const auto o = phqv::get<PhQ::%s<%s>>(in+%d);' % (other, a, np_ + 6)
     two = W('two', np_ + 12, 6, [t_in, o_in, 'phqv::put(out, model.Stress(%s));' % ('t, o' if fwd_arg == 'Strain' else 'o, t')])
